@@ -3,11 +3,11 @@ CONSTANTS
   Words = {"a", "b"}
   MaxLen = 1
   Pads = {0}
-  MaxDocs = 3
-  AllowDeletes = TRUE
+  MaxDocs = 1
+  AllowDeletes = FALSE
   PerSegmentStats = FALSE
   Queries <- MCQueries
   Table <- MCTable
-  MCLeaderFieldNorm = FALSE
-INVARIANT ScoreSegmentationIndependentEvenWithDeletes
+  MCLeaderFieldNorm = TRUE
+INVARIANT CrossFieldLemma
 CHECK_DEADLOCK FALSE
